@@ -215,7 +215,10 @@ def impl(case):
                 else:
                     pm = urllib3.PoolManager(**mk)
                 pm.pool_classes_by_scheme = {"http": HTTPConnectionPool, "https": PlainHttps}
-                r = pm.urlopen(case["method"], url_of(case["start"]), body=body, redirect=case["redirect"], **kw)
+                start_url = url_of(case["start"])
+                if case.get("schemeless") and start_url.startswith("http://"):
+                    start_url = start_url[len("http://"):]          # "host[:port]/path": urllib3 reads it as an http URL
+                r = pm.urlopen(case["method"], start_url, body=body, redirect=case["redirect"], **kw)
             out = [0, Z(r.status)] if r.status != 599 else [9]
         except urllib3.exceptions.MaxRetryError:
             out = [1]
